@@ -32,10 +32,33 @@ GetIndexL1(v, idx) ==
   IF v.t # "arr" THEN JNull
   ELSE LET j == IndexL1(Len(v.a), idx) IN IF j = NOIDX THEN JNull ELSE v.a[j + 1]
 
-(* variable.rs:411-427 compare, with PartialEq (:88-110) and the ordering operators (:113-163) *)
+(* variable.rs:70-86 float_eq on the double model of JValue.tla: identical doubles are equal; so are two doubles at most one unit in
+   the last place apart (their relative difference is below f64::EPSILON wherever they lie in a binade); for neighbours farther apart
+   the bound depends on the position in the binade and the transcription leaves the answer open (FloatEqOpenL1).  This tolerance is a
+   NAMED deviation of Level 1 from the exact equality of Level 0 (DEV_TOLERANT_EQ, Appendix C): C10 itself grants it ("well-separated
+   numbers"), and MC_Cmp_near checks that it is the ONLY difference between the comparison as coded and Cmp. *)
+AbsI(n) == IF n < 0 THEN -n ELSE n
+FloatEqL1(a, b) == a = b \/ (~IsBig(a) /\ ~IsBig(b) /\ SameBase(a, b) /\ ~IsInexact(a) /\ ~IsInexact(b) /\ AbsI(UOf(a) - UOf(b)) <= 1)
+FloatEqOpenL1(a, b) == a # b /\ ~IsBig(a) /\ ~IsBig(b) /\ SameBase(a, b) /\ (IsInexact(a) \/ IsInexact(b) \/ AbsI(UOf(a) - UOf(b)) > 1)
+(* variable.rs:88-110 PartialEq: type-gated, numbers by float_eq, containers element-wise / member-wise *)
+RECURSIVE DeepEqL1(_, _), DeepEqOpenL1(_, _)
+DeepEqL1(l, r) ==
+  IF l.t # r.t THEN FALSE
+  ELSE CASE l.t = "num" -> FloatEqL1(l, r)
+         [] l.t = "arr" -> Len(l.a) = Len(r.a) /\ \A i \in DOMAIN l.a : DeepEqL1(l.a[i], r.a[i])
+         [] l.t = "obj" -> Len(l.o) = Len(r.o) /\ \A i \in DOMAIN l.o : l.o[i].k = r.o[i].k /\ DeepEqL1(l.o[i].v, r.o[i].v)
+         [] OTHER -> l = r
+DeepEqOpenL1(l, r) ==
+  IF l.t # r.t THEN FALSE
+  ELSE CASE l.t = "num" -> FloatEqOpenL1(l, r)
+         [] l.t = "arr" -> Len(l.a) = Len(r.a) /\ \E i \in DOMAIN l.a : DeepEqOpenL1(l.a[i], r.a[i])
+         [] l.t = "obj" -> Len(l.o) = Len(r.o) /\ \E i \in DOMAIN l.o : l.o[i].k = r.o[i].k /\ DeepEqOpenL1(l.o[i].v, r.o[i].v)
+         [] OTHER -> FALSE
+
+(* variable.rs:411-427 compare, with PartialEq (:88-110) and the ordering operators (:113-163: partial_cmp on the doubles, exact) *)
 CompareL1(op, l, r) ==
   IF ~((l.t = "num" /\ r.t = "num") \/ op = "ne" \/ op = "eq") THEN JNull
-  ELSE LET eq == l.t = r.t /\ l = r            \* type-gated equality; floats by value
+  ELSE LET eq == DeepEqL1(l, r)                \* type-gated equality; numbers by float_eq
            lt == NumLess(l, r)
            gt == NumLess(r, l)
        IN CASE op = "eq" -> JBool(eq) [] op = "ne" -> JBool(~eq)
